@@ -111,6 +111,12 @@ func (c *Collection) Update(id string, msg proto.Message, opts ...WriteOption) (
 		&c.mu,
 		func() (item proto.Message, err error) {
 			if created != nil {
+				// Second read, under the write lock. If another writer has stored the item since
+				// our first read, handing back the provisional message again would make the
+				// re-validation in GetAndUpdate pass and silently overwrite that item.
+				if _, exists := c.byId[id]; exists {
+					return nil, status.Errorf(codes.Aborted, "id %v created concurrently", id)
+				}
 				return created, nil
 			}
 
